@@ -361,6 +361,7 @@ class IntelligentSwitch(Component):
             self.remaining_repair_time -= dt
             if self.remaining_repair_time <= Time(0):
                 self.not_fail()
+                self.remaining_repair_time = Time(0)
         elif self.state == IntelligentSwitchState.OK:
             self.draw_fail_status(dt)
 
